@@ -48,6 +48,9 @@ var c08Queries = []string{
 	"SELECT SETVAR('last', id), GETVAR('last') AS last FROM {T}",
 	// columns qualified with the table's own name (a path into the row: NULL on this data, for the
 	// one-dimensional and the nested source alike)
+	// deferred values: every inner array's calls are awaited before the result is handed out
+	"SELECT id, ASYNC.HMID(a) AS d FROM {T}",
+	"SELECT id, AWAIT(a + 1) AS w FROM {T} WHERE a > 1",
 	"SELECT m.a AS qa, id FROM {T}",
 	"SELECT id FROM {T} WHERE m.a > 1 OR a > 2",
 }
@@ -147,11 +150,12 @@ func (p *c08) Init(tier string) {
 	p.docs = append(p.docs, []any{[]any{}, []any{[]any{}}}, []any{})
 }
 
-func (p *c08) NumCases() int { return len(c08Queries) * 4 }
+func (p *c08) NumCases() int { return len(c08Queries) * 6 }
 
 func (p *c08) Describe(i int) any {
 	kind := []string{"nested result vs per-inner-array executions", "mix=> + one query vs concatenation of the inner results",
-		"nested result over the ranged source m[(1:end)] vs per-inner-array executions", "mix=>m[(1:end)] + one query vs concatenation of the inner results"}[i/len(c08Queries)]
+		"nested result over the ranged source m[(1:end)] vs per-inner-array executions", "mix=>m[(1:end)] + one query vs concatenation of the inner results",
+		"nested result over m[keep=>(1:end)] vs per-inner-array executions", "mix=>m[keep=>(1:end)] + one query vs concatenation of the inner results"}[i/len(c08Queries)]
 	return map[string]any{"query": c08Queries[i%len(c08Queries)], "kind": kind, "documents": fmt.Sprintf("%d documents: every outer array of <= %d inner arrays (each <= 2 rows over 3 archetypes, ragged, empty) and depth-3 nestings", len(p.docs), map[string]int{"quick": 2, "thorough": 3}[p.tier])}
 }
 
@@ -206,9 +210,11 @@ func (p *c08) RunCase(i int) *core.CaseResult {
 	r := &core.CaseResult{}
 	q := c08Queries[i%len(c08Queries)]
 	variant := i / len(c08Queries)
-	mix := variant == 1 || variant == 3
-	// variants 2 and 3: the source is a range of the outer array with an open end, `m[(1:end)]`
+	mix := variant == 1 || variant == 3 || variant == 5
+	// variants 2 and 3: the source is a range of the outer array with an open end, `m[(1:end)]`;
+	// variants 4 and 5: the same with keep=>, `m[keep=>(1:end)]`
 	ranged := variant >= 2
+	keep := variant >= 4
 	if mix && (strings.Contains(q, "AVG(") || strings.Contains(q, "MAX(") || strings.Contains(q, "MIN(") || strings.Contains(q, "COUNT(")) {
 		// a whole-table aggregate ranges over the flattened source under mix=>: the concatenation law
 		// is a statement about per-row filters and projections only
@@ -243,6 +249,9 @@ func (p *c08) RunCase(i int) *core.CaseResult {
 		src, msrc := "m", "`mix=>m`"
 		if ranged {
 			src, msrc = "`m[(1:end)]`", "`mix=>m[(1:end)]`"
+		}
+		if keep {
+			src, msrc = "`m[keep=>(1:end)]`", "`mix=>m[keep=>(1:end)]`"
 		}
 		var sql string
 		if mix {
@@ -293,7 +302,7 @@ func (p *c08) RunCase(i int) *core.CaseResult {
 
 func (p *c08) Meta() core.Meta {
 	return core.Meta{
-		Rule:        "one case per (query, kind): 32 filter / projection queries (every WHERE operator family, non-idempotent select lists such as a+1 AS a, star plus expression, CASE, function calls, whole-table aggregates evaluated per row, GETVAR / SETVAR / CONSTANT under WithVars and WithConstants) run on a FROM path that resolves to arrays of arrays: every outer array of 1..2 (thorough 3) inner arrays, each any sequence of <= 2 rows over 3 archetypes (ragged, empty), plus depth-3 and depth-4 nestings (incl. levels with exactly as many arrays as their parent has elements, and empty arrays next to deeper ones); the nested result must equal the per-inner-array executions of the same query, and `mix=>` + one query must equal their concatenation; both also with the source given as a range with an open end (`m[(1:end)]`, `mix=>m[(1:end)]`) over outer arrays of different lengths in one process. non-trivial = some inner result is non-empty",
+		Rule:        "one case per (query, kind): 34 filter / projection queries (every WHERE operator family, non-idempotent select lists such as a+1 AS a, star plus expression, CASE, function calls, whole-table aggregates evaluated per row, GETVAR / SETVAR / CONSTANT under WithVars and WithConstants, ASYNC and AWAIT items) run on a FROM path that resolves to arrays of arrays: every outer array of 1..2 (thorough 3) inner arrays, each any sequence of <= 2 rows over 3 archetypes (ragged, empty), plus depth-3 and depth-4 nestings (incl. levels with exactly as many arrays as their parent has elements, and empty arrays next to deeper ones); the nested result must equal the per-inner-array executions of the same query, and `mix=>` + one query must equal their concatenation; both also with the source given as a range with an open end (`m[(1:end)]`, `mix=>m[(1:end)]`, and the same with keep=>) over outer arrays of different lengths in one process. non-trivial = some inner result is non-empty",
 		Assumptions: []string{"only WHERE and the select list are claimed for nested sources (the property's statement); ORDER BY / LIMIT / aggregates over nested sources are not exercised"},
 		Bounds:      map[string]any{"queries": len(c08Queries), "documents": len(p.docs)},
 		Exhaustive:  true,
